@@ -62,11 +62,13 @@ def confirm(pid, x, src):
 
 def main(argv):
     for pid in argv:
-        base = "/tmp/mut_%s/out" % pid
-        if not os.path.isdir(base):
+        bases = [b for b in ("/tmp/mut_%s/out" % pid, "/tmp/mut2_%s/out" % pid) if os.path.isdir(b)]
+        if not bases:
             print(pid, "no delivery")
             continue
-        for x in sorted(os.listdir(base)):
+        for base, x in [(b, x) for b in bases for x in sorted(os.listdir(b))]:
+            if os.path.isdir(os.path.join(ROOT, "seeded", "mut-%s-%s" % (pid, x))):
+                continue
             src = os.path.join(base, x)
             if not os.path.isfile(os.path.join(src, "patch.diff")):
                 continue
